@@ -1,7 +1,7 @@
 import Spine.Dispatch
 /-! Line-protocol driver of `Spine.Disp` (C01, C03). The harness first describes the world it built from the real
     code (`clear`, then one `loc` line per local feature and one `rem` line per feature every peer announces),
-    then runs histories: `reset r u e` (defect flags: resultOnResult, unbindDisjunct, entRemovalAnyPeer) followed by
+    then runs histories: `reset r u e o` (defect flags: resultOnResult, unbindDisjunct, entRemovalAnyPeer, overviewPanics) followed by
     ops. Answer of an op: the outputs grouped by connection, ` W` appended when a local feature's data was set. -/
 open Spine.Disp
 
@@ -20,11 +20,15 @@ def parseCls : String → Option Cls
   | "read" => some .read | "reply" => some .reply | "notify" => some .notify | "write" => some .write
   | "call" => some .call | "result" => some .result | _ => none
 def showAddr (a : Addr) : String := ".".intercalate (a.1.map toString) ++ "/" ++ toString a.2
+def showOpt : Option Nat → String
+  | some n => toString n
+  | none => "-"
 def showOut : Out → String
-  | .reply r f s d => s!"reply {r} {f} {showAddr s} {showAddr d}"
-  | .result r e s d => s!"result {r} {e} {showAddr s} {showAddr d}"
+  | .reply r f s d v sd => s!"reply {showOpt r} {f} {showAddr s} {showAddr d} v{v} d{showOpt sd}"
+  | .result r e s d sd => s!"result {showOpt r} {e} {showAddr s} {showAddr d} d{showOpt sd}"
   | .readReq f s d => s!"readReq {f} {showAddr s} {showAddr d}"
-  | .notify f s d => s!"notify {f} {showAddr s} {showAddr d}"
+  | .notify f s d v => s!"notify {f} {showAddr s} {showAddr d} v{v}"
+  | .subReq => "other:call"
   | .panic => "panic"
 
 def showOuts (outs : List (Nat × Out)) : String :=
@@ -35,27 +39,43 @@ def showOuts (outs : List (Nat × Out)) : String :=
 structure Conf where
   loc : List LF := []
   rem : List RF := []
+  data : List (Addr × Nat × Nat) := []     -- initial values: feature, function, value id
 
 def freshPeer (c : Conf) : Peer := { feats := c.rem, msgNum := 3, req := [(2, nmAddr, 1000), (3, nmAddr, 902)] }
 
 def initW (c : Conf) (cfg : Cfg) : W :=
-  { loc := c.loc, peers := fun _ => ⟨[], 0, []⟩, binds := [], subs := [], cfg := cfg, fresh := freshPeer c }
+  { loc := c.loc, peers := fun _ => ⟨[], 0, []⟩, binds := [], subs := [], cfg := cfg, fresh := freshPeer c,
+    data := c.data.foldl (fun f e => setData f e.1 e.2.1 e.2.2) (fun _ _ => 0) }
 
 def flag (s : String) : Bool := s == "1"
+
+def tokVal (rest : List String) (pre : String) : Option String :=
+  (rest.find? (·.startsWith pre)).map fun t => (t.drop pre.length).toString
+
+def mkDg (src dst ctr ref : String) (c : Cls) (ack fn : String) (rest : List String) : Dg :=
+  let dd : Option Nat := match tokVal rest "dd=" with
+    | none => some 0
+    | some t => t.toNat?
+  { src := parseAddr src, dst := parseAddr dst, ctr := if ctr == "-" then none else ctr.toNat?,
+    ref := if ref == "-" then none else ref.toNat?, cls := c, ack := ack == "1", fn := fn.toNat!,
+    bad := rest.contains "bad", val := ((tokVal rest "val=").bind String.toNat?).getD 0, noErr := rest.contains "noerr",
+    dstDev := dd }
 
 def parseOp (toks : List String) : Option Op :=
   match toks with
   | "dg" :: p :: src :: dst :: ctr :: ref :: cls :: ack :: fn :: rest =>
     (parseCls cls).map fun c =>
-      .dg p.toNat! ⟨parseAddr src, parseAddr dst, ctr.toNat!, if ref == "-" then none else ref.toNat?, c, ack == "1", fn.toNat!,
-        rest.contains "bad"⟩
+      .dg p.toNat! (mkDg src dst ctr ref c ack fn rest)
   | "bind" :: p :: c :: s :: typ :: ctr :: ack :: _ => some (.call p.toNat! ctr.toNat! (ack == "1") (.bind (parseAddr c) (parseAddr s) typ.toNat!))
   | "unbind" :: p :: c :: s :: ctr :: ack :: _ => some (.call p.toNat! ctr.toNat! (ack == "1") (.unbind (parseAddr c) (parseAddr s)))
   | "sub" :: p :: c :: s :: typ :: ctr :: ack :: _ => some (.call p.toNat! ctr.toNat! (ack == "1") (.sub (parseAddr c) (parseAddr s) typ.toNat!))
+  | "unsub" :: p :: c :: s :: ctr :: ack :: _ => some (.call p.toNat! ctr.toNat! (ack == "1") (.unsub (parseAddr c) (parseAddr s)))
+  | "reann" :: p :: ctr :: ref :: ack :: _ => some (.reann p.toNat! ctr.toNat! (if ref == "-" then none else ref.toNat?) (ack == "1"))
   | "entrem" :: p :: e :: ctr :: ack :: _ => some (.entRem p.toNat! (parseEnt e) ctr.toNat! (ack == "1"))
   | "entadd" :: p :: e :: ctr :: ack :: _ => some (.entAdd p.toNat! (parseEnt e) ctr.toNat! (ack == "1"))
   | ["drop", p] => some (.drop p.toNat!)
   | ["conn", p] => some (.conn p.toNat!)
+  | ["setdata", a, fn, v] => some (.setData (parseAddr a) fn.toNat! v.toNat!)
   | _ => none
 
 partial def loop (h : IO.FS.Stream) (out : IO.FS.Stream) (c : Conf) (w : W) : IO Unit := do
@@ -74,7 +94,9 @@ partial def loop (h : IO.FS.Stream) (out : IO.FS.Stream) (c : Conf) (w : W) : IO
       match parseRole role with
       | some r => ({ c with rem := c.rem ++ [{ ent := parseEnt ent, feat := feat.toNat!, fds := parseList fds, typ := typ.toNat!, role := r }] }, w, "ok")
       | none => (c, w, "bad-op")
-    | ["reset", r, u, e] => (c, initW c { resultOnResult := flag r, unbindDisjunct := flag u, entRemovalAnyPeer := flag e }, "reset")
+    | ["data", a, fn, v] => ({ c with data := c.data ++ [(parseAddr a, fn.toNat!, v.toNat!)] }, w, "ok")
+    | ["reset", r, u, e, o] =>
+      (c, initW c { resultOnResult := flag r, unbindDisjunct := flag u, entRemovalAnyPeer := flag e, overviewPanics := flag o }, "reset")
     | ["binds"] => (c, w, if w.binds.isEmpty then "-" else "; ".intercalate (w.binds.map fun b => s!"{showAddr b.1}<-{b.2.1}:{showAddr b.2.2}"))
     | ["subs"] => (c, w, if w.subs.isEmpty then "-" else "; ".intercalate (w.subs.map fun b => s!"{showAddr b.1}<-{b.2.1}:{showAddr b.2.2}"))
     | _ =>
